@@ -266,6 +266,10 @@ func rulesC16(c *Ctx) {
 						}
 					}
 				}
+			} else if cf != nil && cf.Pkg == try.Pkg && cf.Blocks != nil && helperBuildsOwnContextScope(cf) {
+				// a private constructor helper whose only result is scope.New(...) without a ContextScope
+				newCall = call
+				okR1 = true
 			} else if cf != nil {
 				why = "the body runs in a scope from " + cf.Name() + " (shares the surrounding context)"
 			}
@@ -565,4 +569,38 @@ func substParams(v ssa.Value, h *ssa.Function, args []ssa.Value, depth int) ssa.
 		return found
 	}
 	return v
+}
+
+// helperBuildsOwnContextScope: every return of h is scope.New(Params{...}) whose
+// literal sets no ContextScope.
+func helperBuildsOwnContextScope(h *ssa.Function) bool {
+	rets := returnsOf(h)
+	if len(rets) == 0 {
+		return false
+	}
+	for _, r := range rets {
+		if len(r.Results) != 1 {
+			return false
+		}
+		call, ok := resolve(r.Results[0]).(*ssa.Call)
+		if !ok {
+			return false
+		}
+		cf := call.Call.StaticCallee()
+		if cf == nil || qualName(cf) != mq(scopePkg, "", "New") {
+			return false
+		}
+		ld, ok := call.Call.Args[0].(*ssa.UnOp)
+		if !ok {
+			return false
+		}
+		a, ok := ld.X.(*ssa.Alloc)
+		if !ok {
+			return false
+		}
+		if v, has := literalStores(a)["ContextScope"]; has && !isNilConst(v) {
+			return false
+		}
+	}
+	return true
 }
